@@ -68,8 +68,11 @@ def hosts_for(n, which):
                     yield f'H2:rot{rot}', c2, [pool[(j * 3 + rot) % len(pool)] for j in range(n)]
         elif h == 'SAT':
             if n <= 3:
-                c, ops = arith.saturated_host(n)
+                c, ops = arith.saturated_host(n, wide=n <= 4)
                 yield 'SAT', c, ops
+            if 2 <= n <= 4:
+                c, ops = arith.decoy_host(n)
+                yield 'DEC', c, ops
         elif h == 'ODD':
             if n <= 9:
                 c, ops = arith.odd_label_host(n)
@@ -472,7 +475,7 @@ def run_task(task, acc):
                     if h == 'ODD':
                         return arith.odd_label_host(na + nb)
                     if h == 'SAT':
-                        return arith.saturated_host(na + nb)
+                        return arith.saturated_host(na + nb, wide=True)
                     return arith.host(h, na + nb)
 
                 c, ops = mk()
